@@ -241,8 +241,9 @@ PINS = {
     'C20': ['notification', 'condition', 'flag', 'timing', 'tracked', 'streams', 'resource', 'pipe', 'context', 'basics'],
 }
 #: the kernel and the primitives everything else is built on: a change there can break any property of the native API (C12-m5
-#: sat in condition.py, C10-m4 in locks.py), so every machine-based property pins them in addition to its own files
-CORE_PINS = ['loop', 'waitq', 'handler', 'notification', 'condition', 'timing', 'flag', 'task', 'context', 'init']
+#: sat in condition.py, C10-m4 in locks.py, C06-m9 - an `__aexit__` that returns something truthy and swallows a cancellation -
+#: in locks.py again), so every machine-based property pins them in addition to its own files
+CORE_PINS = ['loop', 'waitq', 'handler', 'notification', 'condition', 'timing', 'flag', 'task', 'context', 'init', 'locks']
 for _pid in PINS:
     if _pid != 'C17':
         PINS[_pid] = PINS[_pid] + [k for k in CORE_PINS if k not in PINS[_pid]]
